@@ -113,6 +113,7 @@ func c14(c *Ctx) {
 	for _, l := range c.CorpusLines() {
 		srcs = append(srcs, unhx(strings.Fields(l)[0]))
 	}
+	srcs = append(srcs, variantSnippetSources()...)
 	seeds := repoSeeds()
 	nSeeds := c.N / 2
 	for i := 0; i < nSeeds && len(seeds) > 0; i++ {
